@@ -22,6 +22,8 @@ from gv import rules
 from gv.astutil import AnalysisError
 from gv.astutil import decorator_names
 from gv.astutil import dotted
+from gv.astutil import const_value
+from gv.astutil import kwarg
 from gv.astutil import last_attr
 from gv.astutil import mangle
 from gv.astutil import norm_stmt
@@ -29,6 +31,7 @@ from gv.astutil import param_names
 from gv.astutil import stmts_of
 from gv.astutil import walk_body
 from gv.cfg import cfg_of
+from gv.props.shared import branch_conditions
 from gv.index import ClassInfo
 from gv.props import describe
 from gv.report import Ctx
@@ -1159,7 +1162,40 @@ def check_pickle_helpers(ctx: Ctx) -> None:
         ctx.ob("20.6-helpers", con, bool(ok), f"{fn.name} must {meth} the object with pickle's {cls_} (or pickle.{meth}) on the opened file", node=(calls or direct or [fn])[0], stmt=f"{cls_}.{meth}")
 
 
+def check_runtime_models(ctx: Ctx) -> None:
+    """20.8: a pydantic model created at run time (create_model) cannot be pickled by reference: PydanticGrammar pickles
+    the FIELDS of the models that carry the `__internal__` marker instead.  Every site that installs a run-time model must
+    therefore mark it, unless it derives from a base that already carries the marker."""
+    rel = "core/grammars/pydantic_grammar.py"
+    cls = ctx.index.cls(rel, "PydanticGrammar")
+    n = 0
+    for mname, m in sorted(cls.methods.items()):
+        cfg = cfg_of(m)
+        for st in stmts_of(m):
+            if not (isinstance(st, ast.Assign) and isinstance(st.value, ast.Call) and dotted(st.value.func) == "create_model" and isinstance(st.targets[0], ast.Attribute) and st.targets[0].attr.endswith("__model")):
+                continue
+            n += 1
+            holder = norm_stmt(st.targets[0])
+            marks = [s_ for s_ in stmts_of(m) if isinstance(s_, ast.Assign) and norm_stmt(s_.targets[0]) == f"{holder}.__internal__"]
+            base = kwarg(st.value, "__base__")
+            sn = cfg.node_of(st)
+            ok = False
+            for mk in marks:
+                mn = cfg.node_of(mk)
+                conds = [(norm_stmt(cfg.ast[t].test), v) for t, v in branch_conditions(cfg, mn) if cfg.kind[t] == "test"]
+                if not conds and cfg.escape_path(sn, {mn}) is None:
+                    ok = True  # marked unconditionally
+                elif base is not None and len(conds) == 1 and conds[0] in ((f"hasattr({norm_stmt(base)}, '__internal__')", False), (f"not hasattr({norm_stmt(base)}, '__internal__')", True)):
+                    ok = True  # marked when the base does not carry the marker (inherited otherwise)
+            ctx.ob("20.8-runtime-model", cname(rel, "PydanticGrammar", mname), ok, f"{mname} installs a model created at run time without the `__internal__` marker (set unconditionally, or when its base lacks it): __getstate__ then leaves the class itself in the state and pickle fails (the class cannot be imported), or, unpickled in the same process, shares the class with the original", node=st, stmt="run-time model carries the pickling marker")
+    ctx.floor("20.8-runtime-model", 2)
+    gs = cls.methods.get("__getstate__")
+    ok = gs is not None and any(isinstance(c, ast.Call) and dotted(c.func) == "hasattr" and len(c.args) == 2 and const_value(c.args[1]) == "__internal__" for c in walk_body(gs))
+    ctx.ob("20.8-runtime-model", cname(rel, "PydanticGrammar", "__getstate__"), ok, "__getstate__ must replace a marked model by its fields", node=gs or cls.node, stmt="marked models are pickled by their fields")
+
+
 def run(ctx: Ctx) -> None:
+    check_runtime_models(ctx)
     check_exclusions(ctx)
     check_primitives(ctx)
     check_pairs(ctx)
